@@ -1,9 +1,7 @@
-"""Per-property specifications for the check driver."""
+"""C16 check specification (see lib/specs/__init__.py for the field reference)."""
 
-SPECS = {}
-NOT_APPLICABLE = {}
-
-SPECS['C16'] = {
+SPEC = {
+    'id': 'C16',
     'title': 'Only the active instance and destination writers transmit, on an agreed schedule',
     'coq_check': 'C16_check',
     'parts': [
